@@ -33,7 +33,9 @@ SELECT_EXC = [S("exc"), S("hdr", "exc"), S("hdr", "prog", "exc"), S("hdr", "data
 SELECT_FAULT = [S(), S("bad"), S("pong"), S("cut"), S("hdr", "trunc"), S("hdr", "garbage"), S("data", "cut"),
                 S("eosEarly"), S("hdr", "data", "bad"), S("prog", "pong")]
 INSERT_OK = [S("eos"), S("hdr", "eos"), S("hdr", "prog", "end", "eos"), S("prog", "hdr", "eos"), S("hdr", P("log", 1), "eos"),
-             S("tcols", "hdr", "eos"), S("hdr", "prog", "profile", "eos")]
+             S("tcols", "hdr", "eos"), S("hdr", "prog", "profile", "eos"),
+             # a server that repeats the header block: the column info arrives again while the sender uses the first
+             S("hdr", "hdr", "eos"), S("hdr", "hdr", "hdr", "prog", "eos")]
 INSERT_EXC = [S("exc"), S("hdr", "exc"), S("hdr", "prog", "exc")]
 INSERT_FAULT = [S(), S("bad"), S("hdr", "pong"), S("cut"), S("hdr", "cut"), S("hdr", "trunc"), S("eosEarly"),
                 S("hdr", "eosEarly")]
@@ -57,8 +59,13 @@ PLANS_CANCEL = [[Pl("cancel", "nil"), Pl("keep", "eof")], [Pl("append", "nil"), 
 def cfg(scn, script, plan=(), present=ALL_CBS, rfail=0, rcancel=0, init_rows=0, need_info=None, ext=False):
     if need_info is None:
         need_info = scn != "select"
-    return {"scn": scn, "needInfo": need_info, "ext": ext, "script": list(script), "plan": list(plan),
+    # ext: False | True (external data under a table name of the caller's) | "blank" (ExternalTable left to the library's default)
+    return {"scn": scn, "needInfo": need_info, "ext": bool(ext), "extBlank": ext == "blank", "script": list(script), "plan": list(plan),
             "present": list(present), "rfail": rfail, "rcancel": rcancel, "initRows": init_rows}
+
+
+def rand_ext(rng, p):
+    return rng.choice([True, "blank"]) if rng.random() < p else False
 
 
 def scenario(sid, c, sched="", break_at=-1, rev=54460, compression="disabled", otel=False, sweep="", stride=1, phase=0, rows_per=0):
@@ -260,8 +267,8 @@ def check_and_report(run, pid, drv, scenarios, name, keyprefix=""):
 
 
 def design(pid, cfgs, nonvac=(), liveness=False):
-    """Run TLC on MC_QL under each cfg (must pass); `nonvac` lists (cfg, invariant) pairs that must FAIL
-    with exactly that invariant (the model with the repairs switched off)."""
+    """Run TLC on MC_QL under each cfg (must pass); `nonvac` lists (cfg, property) pairs that must FAIL
+    with exactly that invariant or temporal property (the model with the repairs switched off)."""
     d = V.stage_spec(V.workdir(pid, "mc"))
     st = {"states": 0, "transitions": 0, "cfgs": {}}
     for c in cfgs:
@@ -273,7 +280,7 @@ def design(pid, cfgs, nonvac=(), liveness=False):
         V.log("  design %s: %d distinct / %d generated states, depth %d, %.1fs" % (c, r.distinct, r.generated, r.depth, r.wall))
     for c, inv in nonvac:
         r = V.tlc(d, "MC_QL", c, workers=V.NCPU, timeout=1200, heap="8g")
-        if r.violated_invariant != inv:
+        if r.violated_invariant != inv and r.violated_temporal_name != inv:
             raise V.Inconclusive("non-vacuity config %s did not violate %s: %s" % (c, inv, r.summary()))
         st["cfgs"][c] = {"violates_as_intended": inv}
     return st
